@@ -72,6 +72,17 @@ pub fn dump(args: &HashMap<String, String>) {
             rep.evaluations += 1;
         }
     }
+    // ... and which the stepping evaluator implements (cldb, compile-time evaluation of constants and macros, the REPL):
+    // recorded as "version" 3
+    for op in &opcodes {
+        let prog = V::cons(V::A(op.clone()), V::nil());
+        let unimpl = match std::panic::catch_unwind(|| crate::ops_clvm::stepper_run(&prog, &V::nil(), "int")) {
+            Ok(crate::val::Outcome::Err(m)) => m.contains("unimplemented operator") || m.contains("Unimplemented") || m.contains("unknown op"),
+            _ => false,
+        };
+        writeln!(f, "{}", json!({"ev": "impl", "v": 3, "opcode": op, "implemented": !unimpl})).unwrap();
+        rep.evaluations += 1;
+    }
     // per name: what every tool turns the name into
     let pm = prim_map();
     for n in &names {
@@ -94,11 +105,13 @@ pub fn dump(args: &HashMap<String, String>) {
         ];
         let mut cc = json!([-2]);
         let mut mc = json!([-2]);
+        let mut sr = json!([-2]);
         if !special {
             if let Some(opc) = &opcode {
                 let mut sig_ref = vec![];
                 let mut sig_c = vec![];
                 let mut sig_m = vec![];
+                let mut sig_s = vec![];
                 for arity in 1..=3usize {
                     let params = ["X", "Y", "Z"][..arity].join(" ");
                     let src_classic = format!("(mod ({params}) ({name} {params}))");
@@ -112,6 +125,8 @@ pub fn dump(args: &HashMap<String, String>) {
                         sig_ref.push(cls(crate::val::consensus_run(&reference, e, crate::val::CONS_MAX_COST)));
                         sig_c.push(match &c { Ok(c) => cls(crate::val::consensus_run(&c.code, e, crate::val::CONS_MAX_COST)), Err(_) => "comperr".to_string() });
                         sig_m.push(match &m { Ok(c) => cls(crate::val::consensus_run(&c.code, e, crate::val::CONS_MAX_COST)), Err(_) => "comperr".to_string() });
+                        // the stepping evaluator running the direct call of the opcode
+                        sig_s.push(match std::panic::catch_unwind(|| crate::ops_clvm::stepper_run(&reference, e, "int")) { Ok(o) => cls(o), Err(_) => "panic".to_string() });
                     }
                 }
                 // a compile error is tolerated only where the call can never return (the optimisers fold and reject it)
@@ -121,6 +136,7 @@ pub fn dump(args: &HashMap<String, String>) {
                 let agrees = |sig: &Vec<String>| sig.iter().zip(sig_ref.iter()).all(|(a, b)| b == "err" || a == b);
                 cc = if agrees(&sig_c) { json!(opc) } else { json!([-1]) };
                 mc = if agrees(&sig_m) { json!(opc) } else { json!([-1]) };
+                sr = if agrees(&sig_s) { json!(opc) } else { json!([-1]) };
                 if sig_ref.iter().any(|x| x != "err") {
                     rep.count("names_with_distinguishing_behaviour");
                 }
@@ -130,9 +146,9 @@ pub fn dump(args: &HashMap<String, String>) {
         let st = pm.get(n).and_then(|s| rich_atom_bytes(s.borrow())).map(|b| json!(b)).unwrap_or(json!([-1]));
         let hash_name = parse_sexp(crate::rich::loc(), format!("#{name}").bytes()).ok()
             .and_then(|fs| fs.first().and_then(|x| rich_atom_bytes(x.borrow()))).map(|b| json!(b)).unwrap_or(json!([-1]));
-        writeln!(f, "{}", json!({"ev": "use", "name": n, "assembled": asm, "classic_compiled": cc, "modern_compiled": mc, "stepper": st, "hash_syntax": hash_name})).unwrap();
+        writeln!(f, "{}", json!({"ev": "use", "name": n, "assembled": asm, "classic_compiled": cc, "modern_compiled": mc, "stepper": st, "stepper_runs": sr, "hash_syntax": hash_name})).unwrap();
         if rep.samples.len() < 4 {
-            rep.sample(json!({"name": name, "assembled": asm, "classic_compiled": cc, "modern_compiled": mc, "stepper": st, "hash_syntax": hash_name}));
+            rep.sample(json!({"name": name, "assembled": asm, "classic_compiled": cc, "modern_compiled": mc, "stepper": st, "stepper_runs": sr, "hash_syntax": hash_name}));
         }
     }
     // disassembly of (opcode) under each version
